@@ -231,6 +231,21 @@ func genSpecials(r *Rng) []special {
 		return sb.String()
 	}
 	out = append(out, special{Name: "oversized-function-long-string-tail", Family: "oversized", P: bigStr("A"), Q: bigStr("B")})
+	// the tag of a field of an ANONYMOUS struct type is part of the type (it changes what encoding/json
+	// writes and whether two such values are of one type)
+	tagged := func(tag string) string {
+		return specialHeader("encoding/json") + fmt.Sprintf("func Special(a int, b int, s string, xs []int) int {\n\tout, _ := json.Marshal(struct {\n\t\tID  int    `json:\"id\"`\n\t\tKey string `json:%q`\n\t}{a, s})\n\treturn len(out)*%d + b\n}\n", tag, k1)
+	}
+	out = append(out, special{Name: "struct-tag-of-an-anonymous-struct-changed", Family: "struct-tag", P: tagged("-"), Q: tagged("k")})
+	// a callee swapped for another one of the same length behind a VERY long package path
+	longDir := strings.Repeat("deeplynested", 12)
+	filesLong := map[string]string{
+		longDir + "/book/b.go": "package book\n\nfunc Current(x int) int { return x + 100 }\n\nfunc Expired(x int) int { return x + 9 }\n",
+	}
+	longCallee := func(fn string) string {
+		return specialHeader("genmod/"+longDir+"/book") + fmt.Sprintf("func Special(a int, b int, s string, xs []int) int {\n\tt := 0\n\tfor i := 0; i < len(xs); i++ {\n\t\tt += book.%s(xs[i])\n\t}\n\treturn t + book.%s(a)\n}\n", fn, fn)
+	}
+	out = append(out, special{Name: "callee-swap-behind-a-long-package-path", Family: "callee-swap", Files: filesLong, P: longCallee("Current"), Q: longCallee("Expired")})
 	// generic functions: the instantiation a generic function calls ITSELF at is part of its meaning
 	gen := func(targ string) string {
 		return specialHeader("fmt") + fmt.Sprintf("func kind[T any](depth int) string {\n\tif depth > 0 {\n\t\treturn kind[%s](depth - 1)\n\t}\n\tvar z T\n\treturn fmt.Sprintf(\"%%T\", z)\n}\n\nfunc Special(a int, b int, s string, xs []int) int {\n\treturn len(kind[bool](1))*%d + a\n}\n", targ, k2)
